@@ -413,6 +413,12 @@ def ev_Call(n, c):
             return list(ev(n.args[0], c))[ev(n.args[1], c)]
         if f == "cls_is":
             return type(ev(n.args[0], c)).__name__ == n.args[1].value
+        if f == "was":
+            o = ev(n.args[0], c)
+            twin = c.memo.get(id(o)) if getattr(c, "memo", None) else None
+            if twin is None:
+                raise NotEvaluable("was(): object has no pre-state copy")
+            return getattr(twin, n.args[1].value)
         if f == "same_class":
             return type(ev(n.args[0], c)) is type(ev(n.args[1], c))
         if f == "same":
